@@ -2,7 +2,11 @@
 
 package authz
 
-import "net/http"
+import (
+	"net/http"
+
+	inthttp "github.com/istio-ecosystem/authservice/internal/http"
+)
 
 // VerifSetHTTPClient installs the HTTP client used for identity-provider requests (the repository's own tests
 // set the same private field).
@@ -12,5 +16,25 @@ func VerifSetHTTPClient(h Handler, c *http.Client) bool {
 		return false
 	}
 	o.httpClient = c
+	return true
+}
+
+// VerifSetIdPTransport replaces only the innermost transport of the client NewOIDCHandler built (the part that
+// would open a network connection) and keeps what the repository wraps around it (the logging round tripper at
+// debug level), so that the harness's provider is reached through the repository's own client code.
+func VerifSetIdPTransport(h Handler, rt http.RoundTripper) bool {
+	o, ok := h.(*oidcHandler)
+	if !ok || o.httpClient == nil {
+		return false
+	}
+	switch t := o.httpClient.Transport.(type) {
+	case *inthttp.LoggingRoundTripper:
+		t.Delegate = rt
+	case inthttp.LoggingRoundTripper:
+		t.Delegate = rt
+		o.httpClient.Transport = t
+	default:
+		o.httpClient.Transport = rt
+	}
 	return true
 }
